@@ -20,7 +20,7 @@ for d in sorted(os.listdir(os.path.join(V, 'seeded'))):
         verdict = 'caught (exit 1)' if r.returncode == 1 and rules else ('analysis-broken (exit 2)' if r.returncode == 2 else 'MISSED')
     meta['caught_by'] = {'checks_run': props, 'verdict': verdict, 'rules': rules}
     json.dump(meta, open(os.path.join(sd, 'meta.json'), 'w'), indent=1)
-    rows.append((d, meta.get('summary', '')[:110].replace('|', '/'), verdict, ', '.join(rules)))
+    rows.append((d, meta.get('summary', '')[:110].replace('|', '/').replace('\n', ' '), ('first run: ' + ('reported' if meta.get('reported_when_first_run') else 'missed') + '; now: ') + verdict, ', '.join(rules)))
     print(d, verdict, rules)
 with open(os.path.join(V, 'seeded', 'MATRIX.md'), 'w') as f:
     f.write('# Seeded changes vs. checks\n\nEach row: a change to aslze/asl produced by an independent sub-agent (given only the property text), confirmed by\n`bin/confirm_seed.sh` (builds, 28/28 tests pass, demo fails with / passes without), then run with `bin/try_patch.sh`.\n\n| seed | change | verdict | reporting rules |\n|---|---|---|---|\n')
